@@ -204,6 +204,17 @@ func (in *inliner) sroaFunc(fd *ast.FuncDecl, file *ast.File) int {
 	}
 	// ---- pass C: every use is a field selection, a definition source or a blank assignment
 	blankUse := map[*ast.Ident]bool{}
+	type cmpPair struct{ a, b *sroaVar }
+	var cmps []cmpPair
+	cmpExpr := map[*ast.BinaryExpr]bool{}
+	basicFields := func(st *types.Struct) bool {
+		for i := 0; i < st.NumFields(); i++ {
+			if _, ok := st.Field(i).Type().Underlying().(*types.Basic); !ok {
+				return false
+			}
+		}
+		return true
+	}
 	var stack []ast.Node
 	inLit := 0
 	ast.Inspect(fd.Body, func(n ast.Node) bool {
@@ -226,6 +237,22 @@ func (in *inliner) sroaFunc(fd *ast.FuncDecl, file *ast.File) int {
 						if p.X == ast.Expr(id) {
 							if sel := info.Selections[p]; sel != nil && sel.Kind() == types.FieldVal && len(sel.Index()) == 1 {
 								good = true
+							}
+						}
+					case *ast.BinaryExpr:
+						// whole-value comparison of two split variables of the same type
+						if p.Op == token.EQL || p.Op == token.NEQ {
+							xi, ok1 := p.X.(*ast.Ident)
+							yi, ok2 := p.Y.(*ast.Ident)
+							if ok1 && ok2 {
+								va, vb := vars[info.Uses[xi]], vars[info.Uses[yi]]
+								if va != nil && vb != nil && !va.isPtr && !vb.isPtr && va.st == vb.st && basicFields(va.st) {
+									good = true
+									if !cmpExpr[p] {
+										cmpExpr[p] = true
+										cmps = append(cmps, cmpPair{va, vb})
+									}
+								}
 							}
 						}
 					case *ast.AssignStmt:
@@ -270,6 +297,11 @@ func (in *inliner) sroaFunc(fd *ast.FuncDecl, file *ast.File) int {
 				v.bad, changed = true, true
 			}
 		}
+		for _, cp := range cmps {
+			if cp.a.bad != cp.b.bad {
+				cp.a.bad, cp.b.bad, changed = true, true, true
+			}
+		}
 	}
 	n := 0
 	for _, v := range vars {
@@ -309,7 +341,30 @@ func (in *inliner) sroaFunc(fd *ast.FuncDecl, file *ast.File) int {
 		s := storageOf(v, 0)
 		return ident(s.pfx + f)
 	}
-	// ---- pass D1: field selections
+	// ---- pass D1: whole-value comparisons, then field selections
+	astutil.Apply(fd.Body, func(c *astutil.Cursor) bool {
+		if be, ok := c.Node().(*ast.BinaryExpr); ok && cmpExpr[be] {
+			va, vb := vars[info.Uses[be.X.(*ast.Ident)]], vars[info.Uses[be.Y.(*ast.Ident)]]
+			if va == nil || vb == nil || va.bad || vb.bad {
+				return true
+			}
+			var e ast.Expr
+			for i := 0; i < va.st.NumFields(); i++ {
+				f := va.st.Field(i).Name()
+				var one ast.Expr = &ast.BinaryExpr{X: fieldVar(va, f), Op: be.Op, Y: fieldVar(vb, f)}
+				if e == nil {
+					e = one
+				} else if be.Op == token.EQL {
+					e = &ast.BinaryExpr{X: e, Op: token.LAND, Y: one}
+				} else {
+					e = &ast.BinaryExpr{X: e, Op: token.LOR, Y: one}
+				}
+			}
+			c.Replace(&ast.ParenExpr{X: e})
+			return false
+		}
+		return true
+	}, nil)
 	astutil.Apply(fd.Body, func(c *astutil.Cursor) bool {
 		if se, ok := c.Node().(*ast.SelectorExpr); ok {
 			if id, ok := se.X.(*ast.Ident); ok {
